@@ -107,4 +107,87 @@ func regress(c *hc.Ctx) {
 		P("M0 0C1 3 -6 16.058 3.695 2.7525A28.459916977855222 0.5691983395571045 159.75000000000009 1 1 -9.379 8.75A2 2 0 1 0 -9.6699153754479 8.545541249700406M0.7525 0.30500000000000016L1.2475 5.695M1 3L0.505 -2.3899999999999997").Dash(0.75, 0.5, 0.5, 1, 0)
 		return ""
 	})
+	// round-2 seeded classes (no defect in the current tree; fixed inputs make a recurrence seed-independent)
+	// boolean operations must not rewrite an OPEN clipping operand whose last edge is collinear with
+	// the missing closing edge (Close's in-place branch on a view of the caller's memory)
+	for name, f := range map[string]func(p, q *canvas.Path) *canvas.Path{
+		"And": (*canvas.Path).And, "Or": (*canvas.Path).Or, "Xor": (*canvas.Path).Xor, "Not": (*canvas.Path).Not, "DivideBy": (*canvas.Path).DivideBy} {
+		name, f := name, f
+		run("impure:"+name+"-path-arg", "(M0 0L20 0L20 20L0 20z)."+name+"(M2 2L12 2L12 12L7 7)", func() string {
+			q, back := tailCopy(P("M2 2L12 2L12 12L7 7"))
+			snap := cloneF(back)
+			f(P("M0 0L20 0L20 20L0 20z"), q)
+			if !sameData(snap, back) {
+				return "q is now " + canvas.NewPathFromData(back[:len(q.Data())]).String()
+			}
+			return ""
+		})
+	}
+	// Join repairs only the Close of the joined piece; a Close of a later subpath of q keeps its own start
+	run("wf:close-not-at-start", "(M0 0L10 0).Join(M10 0L10 10M20 20L30 20L30 30z)", func() string {
+		bad, _ := framing(P("M0 0L10 0").Join(P("M10 0L10 10M20 20L30 20L30 30z")).Data())
+		return bad
+	})
+	for _, s := range []string{"M0 0Q5 5 10 0L5 -5M20 0L30 0L30 10z", "M0 0L10 0Q12 8 5 9zM20 20L30 20L30 30z", "M0 0C3 6 8 -6 10 0L12 5M20 20L30 20Q33 27 30 30zM-20 0L-30 1L-25 9z"} {
+		s := s
+		for name, f := range map[string]func(*canvas.Path) *canvas.Path{
+			"Flatten":     func(p *canvas.Path) *canvas.Path { return p.Flatten(0.01) },
+			"ReplaceArcs": (*canvas.Path).ReplaceArcs, "XMonotone": (*canvas.Path).XMonotone, "Reverse": (*canvas.Path).Reverse} {
+			name, f := name, f
+			run("derived-wf:"+name, s+" ."+name, func() string {
+				in := P(s)
+				out := f(in)
+				if bad, _ := framing(out.Data()); bad != "" {
+					return bad + " in " + out.String()
+				}
+				_, ci := framing(in.Data())
+				_, co := framing(out.Data())
+				a, b := drawnSubpaths(in.Data(), ci), drawnSubpaths(out.Data(), co)
+				if name == "Reverse" {
+					for i, j := 0, len(b)-1; i < j; i, j = i+1, j-1 {
+						b[i], b[j] = b[j], b[i]
+					}
+				}
+				if fmt.Sprint(a) != fmt.Sprint(b) {
+					return fmt.Sprintf("subpath structure %v -> %v in %s", a, b, out.String())
+				}
+				return ""
+			})
+		}
+	}
+	// replace keeps an arc with large coordinates in one subpath (rounding noise at the end of the replacement)
+	for _, s := range []string{"M100009 100057L100030 100040A25 17 33.5 0 1 100009.3 100020L100016 100070z", "M-737991 57L-737970 40A25 17 33.5 1 0 -737990.7 20L-737984 70zM10 0L20 0L20 10z",
+		"M9009 57L9030 40A12 30 75.25 0 0 9009.6 20Q8995 30 9002 45L9016 70z"} {
+		s := s
+		for name, f := range map[string]func(*canvas.Path) *canvas.Path{
+			"Flatten":     func(p *canvas.Path) *canvas.Path { return p.Flatten(0.01) },
+			"ReplaceArcs": (*canvas.Path).ReplaceArcs, "XMonotone": (*canvas.Path).XMonotone} {
+			name, f := name, f
+			run("derived-structure:"+name, s+" ."+name, func() string {
+				in := P(s)
+				out := f(in)
+				if bad, _ := framing(out.Data()); bad != "" {
+					return bad + " in " + out.String()
+				}
+				_, ci := framing(in.Data())
+				_, co := framing(out.Data())
+				if a, b := drawnSubpaths(in.Data(), ci), drawnSubpaths(out.Data(), co); fmt.Sprint(a) != fmt.Sprint(b) {
+					return fmt.Sprintf("subpath structure %v -> %v in %s", a, b, out.String())
+				}
+				return ""
+			})
+		}
+	}
+	// Reverse of a closed subpath that revisits its own first point
+	run("derived-wf:Reverse", "M0 0L10 5L10 -5L0 0L-10 8L-10 -2z .Reverse", func() string {
+		out := P("M0 0L10 5L10 -5L0 0L-10 8L-10 -2z").Reverse()
+		bad, co := framing(out.Data())
+		if bad != "" {
+			return bad + " in " + out.String()
+		}
+		if fmt.Sprint(co) != "[true]" {
+			return "subpath structure [true] -> " + fmt.Sprint(co) + " in " + out.String()
+		}
+		return ""
+	})
 }
